@@ -40,6 +40,7 @@ type Job struct {
 	Hung         int64
 	RecvStates   int64
 	Suspended    int64
+	MaskedRI     int64 // executions that suspended inside a partially available multi-byte read (ri not compared, state not extended)
 	Statuses     map[string]int64
 	CappedExec   bool
 	CappedStates bool
@@ -56,8 +57,12 @@ type Job struct {
 // Receiver states are handed to the C side as save / load slots, so a history
 // is replayed by loading the state its prefix produced.
 func Enumerate(pi *ProgInfo, opt Options) *Job {
-	p := pi.P
 	j := &Job{PI: pi, Statuses: map[string]int64{}}
+	if err := pi.Acquire(); err != nil {
+		j.InterpBugs = append(j.InterpBugs, "recompilation failed: "+err.Error())
+		return j
+	}
+	p := pi.P
 	m := interp.NewMachine(p)
 	m.CheckBounds = false
 	m.WantTrace = false
@@ -98,7 +103,7 @@ func Enumerate(pi *ProgInfo, opt Options) *Job {
 				// The script needs the arguments as they are before the call.
 				mark := len(s.B)
 				s.Load(qi)
-				s.Call(mx, true, args)
+				flagsAt := s.Call(mx, true, args)
 				res := m.CallPublicValues(obj, f, interp.CallSpec{Method: f.Name, Args: tup}, args)
 				j.Executions++
 				if res.Bug != "" || res.Viol != nil || res.Hung {
@@ -115,8 +120,13 @@ func Enumerate(pi *ProgInfo, opt Options) *Job {
 					}
 					continue
 				}
+				partial := res.Suspended && PartialRead(p, obj, args)
+				if partial {
+					s.MaskRI(flagsAt)
+					j.MaskedRI++
+				}
 				d.Reset()
-				pi.Record(&d, mi, &res, args, obj)
+				pi.Record(&d, mi, &res, args, obj, partial)
 				j.Want = append(j.Want, d.H)
 				j.execs = append(j.execs, execRef{int32(qi), int16(mx), int32(tx)})
 				if mi.Ret == 's' {
@@ -125,7 +135,10 @@ func Enumerate(pi *ProgInfo, opt Options) *Job {
 				if res.Suspended {
 					j.Suspended++
 				}
-				if n.depth < opt.Depth {
+				// A receiver parked inside a partially consumed multi-byte read is not
+				// extended: an unrelated buffer in the next call is not a continuation
+				// of the stream under either reading of "consumed" (C05 drives those).
+				if n.depth < opt.Depth && !partial {
 					h := obj.Hash()
 					if !seen[h] {
 						if len(seen) >= opt.MaxStates {
@@ -151,7 +164,7 @@ done:
 // History reconstructs the calls that lead to execution k and the call itself.
 func (j *Job) History(k int) (hist []interp.CallSpec, call interp.CallSpec) {
 	spec := func(e execRef) interp.CallSpec {
-		return interp.CallSpec{Method: j.PI.Methods[e.method].Fn.Name, Args: j.tuples[e.method][e.tuple]}
+		return interp.CallSpec{Method: j.PI.Methods[e.method].Name, Args: j.tuples[e.method][e.tuple]}
 	}
 	e := j.execs[k]
 	for n := e.node; j.nodes[n].parent >= 0; n = j.nodes[n].parent {
@@ -162,7 +175,10 @@ func (j *Job) History(k int) (hist []interp.CallSpec, call interp.CallSpec) {
 
 // ReplayInterp re-executes a history linearly in the interpreter and returns
 // the trace text of every call (the same lines the C driver prints in trace mode).
-func ReplayInterp(pi *ProgInfo, calls []interp.CallSpec) (blocks [][]string, problem string) {
+func ReplayInterp(pi *ProgInfo, calls []interp.CallSpec) (blocks [][]string, masks []bool, problem string) {
+	if err := pi.Acquire(); err != nil {
+		return nil, nil, err.Error()
+	}
 	p := pi.P
 	m := interp.NewMachine(p)
 	m.CheckBounds = false
@@ -170,12 +186,12 @@ func ReplayInterp(pi *ProgInfo, calls []interp.CallSpec) (blocks [][]string, pro
 	for _, c := range calls {
 		var mi *MethodInfo
 		for _, x := range pi.Methods {
-			if x.Fn.Name == c.Method {
+			if x.Name == c.Method {
 				mi = x
 			}
 		}
 		if mi == nil {
-			return blocks, "no method " + c.Method
+			return blocks, masks, "no method " + c.Method
 		}
 		args := make([]interp.Value, len(c.Args))
 		for i, a := range c.Args {
@@ -183,28 +199,30 @@ func ReplayInterp(pi *ProgInfo, calls []interp.CallSpec) (blocks [][]string, pro
 		}
 		res := m.CallPublicValues(obj, mi.Fn, c, args)
 		if res.Viol != nil {
-			return blocks, "interpreter: " + res.Viol.String()
+			return blocks, masks, "interpreter: " + res.Viol.String()
 		}
 		if res.Bug != "" || res.Hung {
-			return blocks, "interpreter problem: " + res.Bug
+			return blocks, masks, "interpreter problem: " + res.Bug
 		}
+		partial := res.Suspended && PartialRead(p, obj, args)
 		var lines []string
 		d := Digester{Lines: &lines}
 		d.Reset()
-		pi.Record(&d, mi, &res, args, obj)
+		pi.Record(&d, mi, &res, args, obj, partial)
 		blocks = append(blocks, lines)
+		masks = append(masks, partial)
 	}
-	return blocks, ""
+	return blocks, masks, ""
 }
 
 // HistoryScript is the script body that replays a history with every call traced.
-func HistoryScript(pi *ProgInfo, calls []interp.CallSpec) []byte {
+func HistoryScript(pi *ProgInfo, calls []interp.CallSpec, masks []bool) []byte {
 	var s Script
 	s.New()
-	for _, c := range calls {
+	for ci, c := range calls {
 		mx := 0
 		for _, x := range pi.Methods {
-			if x.Fn.Name == c.Method {
+			if x.Name == c.Method {
 				mx = x.Index
 			}
 		}
@@ -212,7 +230,10 @@ func HistoryScript(pi *ProgInfo, calls []interp.CallSpec) []byte {
 		for i, a := range c.Args {
 			args[i] = pi.P.MakeArg(a)
 		}
-		s.Call(mx, true, args)
+		at := s.Call(mx, true, args)
+		if ci < len(masks) && masks[ci] {
+			s.MaskRI(at)
+		}
 	}
 	return s.B
 }
